@@ -32,6 +32,23 @@ extern "C" int h_inplace(unsigned mode, unsigned d, double* a, double* hh, doubl
     return 0;
   }catch(...){ return 1; }
 }
+// compound forms and forms carrying a (valid) guarantee: 2: B += A.Evolve(H,t)  3: B -= A.Evolve(H,t)  4: B += A.Evolve(buf)  5: B -= A.Evolve(buf)
+// 6: A = guarantee<EqualSizes>(A.Evolve(H,t))  7: A = guarantee<EqualSizes>(A.Evolve(buf))   (the sizes are equal; nothing is promised about aliasing)
+extern "C" int h_inplace2(unsigned mode, unsigned d, double* a, double* b, double* hh, double t, double* buf){
+  try{
+    SU_vector A(d,a), B(d,b), H(d,hh);
+    switch(mode){
+      case 2: B += A.Evolve(H,t); break;
+      case 3: B -= A.Evolve(H,t); break;
+      case 4: B += A.Evolve(buf); break;
+      case 5: B -= A.Evolve(buf); break;
+      case 6: A = detail::guarantee<detail::EqualSizes>(A.Evolve(H,t)); break;
+      case 7: A = detail::guarantee<detail::EqualSizes>(A.Evolve(buf)); break;
+      default: return 2;
+    }
+    return 0;
+  }catch(...){ return 1; }
+}
 extern "C" int h_trace(unsigned d, double* a, double* b, double* o){
   try{
     SU_vector A(d,a), B(d,b);
